@@ -300,7 +300,7 @@ func c03Signature(d *xmlw.Doc, used []string, present, absent int) string {
 	var noise []string
 	for _, u := range used {
 		switch u {
-		case "unkkids-in-object", "comment-in-text", "numforms":
+		case "unkkids-in-object", "comment-in-text", "numforms", "ns-default", "ns-prefix-all", "ns-prefix-some", "ns-foreign-attrs-only", "ns-foreign-attrs":
 		default:
 			noise = append(noise, u)
 		}
@@ -601,7 +601,7 @@ func init() {
 		ID:    "C03",
 		Level: "exploration",
 		Rule: "documents serialised by the independent OSM-XML writer from a model: (a) systematic — one object per document with exactly one optional part populated, and with all but one, for every optional part of bounds/node/way/relation/changeset/note/user (thorough: also inside an osmChange block and inside diff actions); " +
-			"(b) each of 12 layout-noise classes alone and all-but-it on populated <osm>, osmChange and augmented-diff documents; (c) PRNG documents: kinds interleaved below <osm>, 0-6 repeated/interleaved create/modify/delete blocks, diff actions of all three types mixed with changesets, Unicode text incl. XML specials, tab/LF/CR, boundary code points, scanner fed in chunks of 1/7/64/4096 bytes or unchunked. " +
+			"(b) each of 13 layout-noise classes (incl. XML namespaces: default namespace on the root, all / some element names prefixed, foreign-namespace attributes such as xsi:schemaLocation, xml:lang, xml:space, xml:base) alone and all-but-it on populated <osm>, osmChange and augmented-diff documents; (c) PRNG documents: kinds interleaved below <osm>, 0-6 repeated/interleaved create/modify/delete blocks, diff actions of all three types mixed with changesets, Unicode text incl. XML specials, tab/LF/CR, boundary code points, scanner fed in chunks of 1/7/64/4096 bytes or unchunked. " +
 			"A signature is (root kind, object kinds present, block/action structure, optional-part class, noise classes used) for random and noise documents, and (root, mode, feature) for systematic ones; distinct_nontrivial counts distinct signatures.",
 		Assumptions: []string{
 			"an absent optional attribute or sub-element means the zero value of the corresponding struct field (what the API's structs document); a zero value may be written out or omitted",
@@ -609,6 +609,7 @@ func init() {
 			"at most one <bounds> per container (osm root, or all blocks of one action type together): which of several wins is not specified",
 			"unknown elements at container level (below the root, action blocks, diff actions, old/new) carry no OSM-named descendants: whether those are skipped or seen as objects is ambiguous and not asserted; inside objects unknown children may contain OSM-named elements",
 			"unknown attribute and element names never equal a vocabulary name under any letter case or namespace prefix; attribute values never rely on attribute-value normalisation (tab/LF/CR always as character references, CR also in text)",
+			"namespaces: the OSM format defines none, and both decoders are expected to identify elements by their local name whatever namespace a declaration puts them in (an xmlns declaration is one more unknown attribute); OSM attributes are never put into a namespace and foreign-namespace attributes never have an OSM local name (observed: Go's encoding/xml matches attributes by local name alone, so xml:id or o:version WOULD be read as id / version — ambiguous, not generated)",
 			"numbers and dates are written in the canonical syntax of the API (decimal without exponent, RFC 3339 'Z' times with optional fraction, 'YYYY-MM-DD hh:mm:ss UTC' note dates); trailing zeros in decimals are the only numeric variation",
 			"diff create actions hold exactly one element, old/new exactly one element each (the augmented-diff shape the API documents); the scanner is expected to deliver old before new, then the next action, i.e. plain document order",
 			"encoding/xml itself (tokenizer, entity and character-reference decoding) is part of the execution under observation, not of the oracle",
